@@ -464,6 +464,13 @@ func asteriskDefineProcess(
 
 	asteriskArrayT := base.MakeAnyArray()
 
+	// the slot of the parameter belongs to the class that defines the method,
+	// in its namespace (like every other parameter), whoever calls it
+	slotFrame, slotClass := m.evaluatedObjectT.GetFrame(), class
+	if methodT.DefinedFrame != "" || methodT.DefinedClass != "" {
+		slotFrame, slotClass = methodT.DefinedFrame, methodT.DefinedClass
+	}
+
 	// the rest parameter of a configured method keeps its declaration: only a
 	// user-defined method learns its parameter type from the call
 	declaredT := getDefinedArgT(m, methodT, class, definedArgNames[defineArgIdx][1:])
@@ -497,8 +504,8 @@ func asteriskDefineProcess(
 	if mustBindCt >= len(positionalArgTs) {
 		if !isConfigured {
 			base.SetValueT(
-				m.evaluatedObjectT.GetFrame(),
-				class,
+				slotFrame,
+				slotClass,
 				m.method,
 				definedArgNames[defineArgIdx][1:],
 				asteriskArrayT,
@@ -523,8 +530,8 @@ func asteriskDefineProcess(
 
 	if !isConfigured {
 		base.SetValueT(
-			m.evaluatedObjectT.GetFrame(),
-			class,
+			slotFrame,
+			slotClass,
 			m.method,
 			definedArgNames[defineArgIdx][1:],
 			asteriskArrayT,
